@@ -48,7 +48,8 @@ THEOREMS = {
             "Spydr.Verilog.lowAligned_bit", "Spydr.Verilog.connect_too_wide", "Spydr.Verilog.resize_stable",
             "Spydr.Verilog.resize_keeps_index", "Spydr.Verilog.resize_port_stable",
             "Spydr.Verilog.verilog_reader_spec_partial", "Spydr.Verilog.connect_assign_spec",
-            "Spydr.Verilog.connect_alias_spec", "Spydr.Verilog.elab_connection_spec"],
+            "Spydr.Verilog.connect_alias_spec", "Spydr.Verilog.elab_connection_spec",
+            "Spydr.Verilog.elab_connection_total"],
     "C04": ["Spydr.Verilog.emit_eval", "Spydr.Verilog.emit_eval_spec", "Spydr.Verilog.decl_range_roundtrip",
             "Spydr.Verilog.alias_header_roundtrip", "Spydr.Verilog.assign_regen", "Spydr.Verilog.assign_regen_all",
             "Spydr.Verilog.write_order_defined", "Spydr.Verilog.write_order_total", "Spydr.Verilog.visit_order_defined",
@@ -564,12 +565,14 @@ def corr_c06_read(res, drv, text, v, inp, order_may_differ, known_sig):
         return
     a, b = canon_impl_view(v), canon_model_view(o["view"])
     d = first_diff(a, b)
-    if d and order_may_differ:
-        res.corr_mismatch("C06.readV vs sdn.parse (port order)", inp, {"at": d[0], "impl": d[1]}, {"at": d[0], "model": d[2]},
-                          signature=K.SIG_POS_ORDER)
-        d = first_diff(ports_sorted(a), ports_sorted(b))
     if d:
-        res.corr_mismatch("C06.readV vs sdn.parse (view)", inp, {"at": d[0], "impl": d[1]}, {"at": d[0], "model": d[2]}, signature=known_sig)
+        d2 = first_diff(ports_sorted(a), ports_sorted(b))
+        if d2 is None:
+            res.corr_mismatch("C06.readV vs sdn.parse (port order)", inp, {"at": d[0], "impl": d[1]}, {"at": d[0], "model": d[2]},
+                              signature=K.SIG_POS_ORDER)
+        else:
+            res.corr_mismatch("C06.readV vs sdn.parse (view)", inp, {"at": d2[0], "impl": d2[1]}, {"at": d2[0], "model": d2[2]},
+                              signature=known_sig)
 
 
 def corr_c06_elab(res, drv, design, v, raised, known_sig):
@@ -589,16 +592,15 @@ def corr_c06_elab(res, drv, design, v, raised, known_sig):
         return
     a, b = canon_impl_view(v), canon_model_view(o["view"])
     d = first_diff(a, b)
-    if d and K.order_differs(design):
-        # sub-domain of the port-order finding: the order itself is the known divergence; everything else is compared
-        res.corr_mismatch("C06.elabDesign vs sdn.parse (port order)", pack(design), {"at": d[0], "impl": d[1]},
-                          {"at": d[0], "model": d[2]}, signature=K.SIG_POS_ORDER)
-        d = first_diff(ports_sorted(a), ports_sorted(b))
-        if known_sig == K.SIG_POS_ORDER and not K.pos_order_victims(design):
-            known_sig = None      # no positional map is affected: nothing but the order may differ
     if d:
-        res.corr_mismatch("C06.elabDesign vs sdn.parse (view)", pack(design), {"at": d[0], "impl": d[1]}, {"at": d[0], "model": d[2]},
-                          signature=known_sig)
+        d2 = first_diff(ports_sorted(a), ports_sorted(b))
+        if d2 is None:
+            # nothing but the order of the ports differs: the (repaired) header-order finding
+            res.corr_mismatch("C06.elabDesign vs sdn.parse (port order)", pack(design), {"at": d[0], "impl": d[1]},
+                              {"at": d[0], "model": d[2]}, signature=K.SIG_POS_ORDER)
+        else:
+            res.corr_mismatch("C06.elabDesign vs sdn.parse (view)", pack(design), {"at": d2[0], "impl": d2[1]},
+                              {"at": d2[0], "model": d2[2]}, signature=known_sig)
 
 
 # ----------------------------------------------------------------------------------------------
@@ -893,7 +895,10 @@ def c04_run(impl, design, text, how, combo, rng_seed, escape_names=False, keep_u
         return [("transform.%s.raises.%s" % (how, fam(e)), str(e)[:120])]
     if escape_names:
         for e in unwritable_names(nl):
-            e.name = "\\" + e.name
+            try:
+                e.name = "\\" + e.name
+            except ValueError:
+                return [("escaped-name-already-taken", str(e.name))]
     v1 = V.view(nl)
     pr, _ = eval_c04(impl, nl, v1, combo, random.Random(rng_seed))
     if not keep_undef:
@@ -1472,14 +1477,27 @@ def shard_bundled_c06(seed, idx, files, deadline, tier):
             if pr:
                 # counterfactual denotation per open finding: does the reader's netlist equal the denotation of the
                 # neutralised design?  (same text; only the reading of the text differs)
-                for s_, trig, neut in K.C06_KNOWN:
-                    if trig(design) and s_ == K.SIG_ASC and not V.check_c06(G.denote(neut(design)), v):
-                        sig = s_
-                res.spec_failure(sig or ("sdn.parse.bundled." + pr[0][0]), inp, "; ".join("%s: %s" % p for p in pr[:3]))
+                sigs = []
+                cand = [(s_, neut) for s_, trig, neut in K.C06_KNOWN if s_ in (K.SIG_ASC, K.SIG_PORT_ATTRS, K.SIG_MULTI) and trig(design)]
+                for s_, neut in cand:
+                    if not V.check_c06(G.denote(neut(design)), v):
+                        sigs = [s_]
+                        break
+                if not sigs and len(cand) > 1:
+                    dd = design
+                    for _, neut in cand:
+                        dd = neut(dd)
+                    if not V.check_c06(G.denote(dd), v):
+                        sigs = [s_ for s_, _ in cand]
+                sig = sigs[0] if sigs else None
+                for s_ in sigs or ["sdn.parse.bundled." + pr[0][0]]:
+                    res.spec_failure(s_, inp, "; ".join("%s: %s" % p for p in pr[:3]))
             if len(text) <= (150_000 if tier == "quick" else 1_200_000):
-                corr_c06_elab(res, drv, design, v, None, sig or K.corr_sig_c06(design) or (K.SIG_ASC if K.has_asc(design) else None))
+                trg = [s_ for s_, trig, _ in K.C06_KNOWN if s_ in (K.SIG_PORT_ATTRS, K.SIG_MULTI, K.SIG_ASC) and trig(design)]
+                csig = sig or (trg[0] if trg else None) or K.corr_sig_c06(design)
+                corr_c06_elab(res, drv, design, v, None, csig)
                 res.dist("bundled:elaborated-by-the-model")
-                corr_c06_read(res, drv, text, v, inp, K.order_differs(design), sig)
+                corr_c06_read(res, drv, text, v, inp, K.order_differs(design), csig)
                 res.dist("bundled:read-from-characters-by-the-model")
     finally:
         drv.close()
@@ -1671,7 +1689,7 @@ def _describe(ctx):
         ctx.assumptions = [
             "positional port maps on never-declared modules are outside the generated domain (port names unknowable; the reader rejects >= 2 such connections and the writer cannot emit the unnamed port)",
             "alias header ports range over single-bit nets (documented limitation of the reader)",
-            "ports are based at 0 and msb >= lsb (property's quantifier); nets are declared before use, implicit nets are scalar",
+            "ports are based at 0 and msb >= lsb (property's quantifier); every connection expression is at most as wide as the declared port; nets are declared before their first use, implicit nets are scalar; string literals contain no escaped quote",
             "bundled files: denotation through the engine's independent reader (verilog_indep: no macro defined, Verilog-2001 semantics incl. ascending ranges); a file outside its subset (alias ports over selects) is checked for acceptance and well-formedness only",
         ]
         ctx.partial_notes = ctx.partial_notes + [
